@@ -1417,6 +1417,13 @@ static void end_query(ares_channel_t *channel, ares_server_t *server,
 
   ares_metrics_record(query, server, status, dnsrec);
 
+  /* Take the query off the list of all queries before invoking the callback,
+   * like ares_cancel() does.  The callback is allowed to call ares_cancel(),
+   * which must not find this query again: it would invoke the callback a
+   * second time and free the query underneath us. */
+  ares_llist_node_destroy(query->node_all_queries);
+  query->node_all_queries = NULL;
+
   /* Invoke the callback. */
   query->callback(query->arg, status, query->timeouts, dnsrec);
   ares_free_query(query);
